@@ -128,6 +128,8 @@ def case_strategy():
     base = st.one_of(gen_cfg.model_and_spec(force=['many_ports', 'injected'], want_mixed=True),
                      gen_cfg.model_and_spec(want_mc=True, force=['many_ports']),
                      gen_cfg.model_and_spec(want_mc=True),
+                     gen_cfg.model_and_spec(want_mc=True, force=['prefix_ports', 'many_ports']),
+                     gen_cfg.model_and_spec(force=['prefix_ports', 'many_ports'], want_mixed=True),
                      gen_cfg.model_and_spec(force=['shared_itf', 'many_ports']),
                      gen_cfg.model_and_spec())
     return st.tuples(base, st.integers(0, 3)).map(lambda t: {**t[0], 'clients': t[1]})
